@@ -551,8 +551,12 @@ macro_rules! impl_api {
                 if const { A::HOME != $MA } {
                     unreachable!("lite cell");
                 }
-                {
-                    let _ = route;
+                if route.is_dyn() {
+                    // Self = dyn BumpAllocatorCoreScope: the trait-object implementation of the typed layer
+                    // (one instantiation for all cells)
+                    let d: &dyn BumpAllocatorCoreScope<'a> = self;
+                    boxed_impl(d, req, seed, try_)
+                } else {
                     boxed_impl(self, req, seed, try_)
                 }
             }
@@ -714,7 +718,7 @@ fn elems_ok<T: Copy>(ptr: *const T, n: usize, seed: u64, per_index: bool) -> boo
     }
 }
 
-fn boxed_impl<'a, X: BumpAllocatorTypedScope<'a>>(b: &X, req: BoxReq, seed: u64, try_: bool) -> Result<BoxOut, ()> {
+fn boxed_impl<'a, X: BumpAllocatorTypedScope<'a> + ?Sized>(b: &X, req: BoxReq, seed: u64, try_: bool) -> Result<BoxOut, ()> {
     macro_rules! t {
         ($try_call:expr, $call:expr) => {
             if try_ { $try_call.map_err(|_| ())? } else { $call }
